@@ -1594,11 +1594,7 @@ def summarize(func_node, canon, leaf=None, keep=()):
             if isinstance(t_, ast.Constant):
                 t_ = ast.Constant(bool(t_.value))
             raw.append(("loop-iter", [hdr, " while ", t_], True))
-        assigned = set()
-        for x in n.body:
-            for y in ast.walk(x):
-                if isinstance(y, ast.Name) and isinstance(y.ctx, ast.Store):
-                    assigned.add(y.id)
+        assigned = w._assigned(n.body)
         for s in w.loop_out.get(id(n), []):
             for name in sorted(assigned - temps - tgt):
                 v = s.env.get(name)
